@@ -31,7 +31,7 @@ def sh(cmd, cwd=None, timeout=3600, env=None):
 
 def suite(wt):
     sh('rm -f tests/*.trs tests/*.log', cwd=wt)
-    rc, out = sh('make -C tests check -j8', cwd=wt)
+    rc, out = sh('timeout -k 10 1500 make -C tests check -j8', cwd=wt)
     base = set(json.load(open('/root/.vp/BASELINE.json'))['stable_pass'])
     got = set()
     import glob
